@@ -140,14 +140,16 @@ def rule_drop(ctx, cat, prefix="R-DROP"):
     for tr in contexts(cat):
         if not tr.decode_ok:
             continue
-        _drop_events(ctx, cq, tr, tr.path.events, prefix, cat)
+        _drop_events(ctx, cq, tr, tr.path, prefix, cat)
 
 
-def _drop_events(ctx, cq, tr, events, prefix, cat):
+def _drop_events(ctx, cq, tr, path, prefix, cat):
+    events = path.events
+    rfacts = path.st.facts if path.st is not None else {}
     for u in events:
         if u.kind == "LOOP":
             for bp in u.a["body"]:
-                _drop_events(ctx, cq, tr, bp.events, prefix, cat)
+                _drop_events(ctx, cq, tr, bp, prefix, cat)
             continue
         if u.kind != "UNREG" or u.a["reg"] not in DEFERRED_REGS:
             continue
@@ -169,6 +171,8 @@ def _drop_events(ctx, cq, tr, events, prefix, cat):
                     # transfer: the receiving object must itself be registered on this path
                     if any(r.kind == "REG" and r.a["val"] == e.a["obj"] for r in events):
                         ok = True
+            if not ok and rfacts.get(("truthy", ("attr", dterm, "called"))) is True:
+                ok = True       # the 'already fired' arm of a fire guarded by `not x.deferred.called`
             if not ok and rg == "queuePublishTx":
                 # reviewed exception: a QoS 0 entry leaves the queue with its Deferred already fired (checked separately)
                 facts = tr.path.st.facts if tr.path.st is not None else {}
